@@ -253,6 +253,8 @@ def _delegate_scp_finality(repo, rep, tier):
     from ..delegate import delegate
 
     rep.rule("scp-finality", "in every SCP a response whose category is not Pending is the last one for its request, and every request gets one (C20's after-final / no-final rules)")
+    rep.rule("category-use", "a sub-operation's result is tallied by the category its status has in the storage table (C22's classification rule)")
+    delegate(repo, rep, tier, "C22", ("classification",), "category-use", "the Get / Move SCP files a status under a counter that does not match its category (a Cancel or Pending answer counted as completed): the final response then reports Success for a retrieval that did not complete")
     delegate(repo, rep, tier, "C20", ("after-final", "no-final"), "scp-finality", "the SCP's decision that a response is (not) final does not follow the category of its status: a Warning / Failure / Cancel / Success status is followed by another response, or a request is left without a final one")
 
 
